@@ -379,6 +379,7 @@ func c17Run(c *Ctx) {
 		}
 		return map[string]interface{}{"declaration": d.Describe(), "terminal_width": W, "effective_width": eff, "active_chain": cn, "rows": len(rows)}
 	})
+	histWiden := false
 	pi := safely(func() {
 		if !routeA && c.K%7 == 0 && c.W.Pty != nil && c.W.Pty.ok {
 			// an earlier help at another terminal width must not influence this one
@@ -386,6 +387,39 @@ func c17Run(c *Ctx) {
 			c.W.Pty.SetWidth(37 + int(c.K%200))
 			b.P.WriteHelp(&discard)
 			c.W.Pty.SetWidth(W)
+		}
+		if !routeA && c.K%5 == 3 && d.resolveLive(b) == "" {
+			// help was laid out once; then the program widens an entry (value name, choices, namespace, long name):
+			// the next help is laid out for the entries as they are now
+			var discard bytes.Buffer
+			b.P.WriteHelp(&discard)
+			var os []*Opt
+			for _, cm := range active {
+				for _, o := range cm.OwnOpts() {
+					if o.FO != nil && !o.Hidden && !o.T.IsFlag() {
+						os = append(os, o)
+					}
+				}
+			}
+			if len(os) > 0 {
+				o := os[r.Intn(len(os))]
+				wide := strings.Repeat("w", r.Range(3, 40))
+				switch r.Intn(4) {
+				case 0:
+					o.FO.ValueName = "V" + wide
+				case 1:
+					o.FO.Choices = append(append([]string{}, o.FO.Choices...), wide)
+				case 2:
+					if o.Grp.FG != nil {
+						o.Grp.FG.Namespace = "ns" + wide
+					}
+				default:
+					if o.FO.LongName != "" {
+						o.FO.LongName += "-" + wide
+					}
+				}
+				histWiden = true
+			}
 		}
 		if routeA {
 			var words []string
@@ -429,7 +463,7 @@ func c17Run(c *Ctx) {
 	if nameScript != 0 {
 		cell += "/names-nonascii"
 	}
-	c.Held(cell, fmt.Sprintf("W=%d D=%d rows=%d chain=%d", W, D, len(rows), len(chain)))
+	c.Held(cell, fmt.Sprintf("W=%d D=%d rows=%d chain=%d widened-after-first-help=%v", W, D, len(rows), len(chain), histWiden))
 }
 
 // quoteIfNeededRef: a default is shown quoted iff it contains non-printable characters (not generated here).
